@@ -10,7 +10,7 @@ ID = 'C01'
 COQ_FILES = ['props/C01.v']
 LEVEL = 'proof'
 FAMILIES = [('timers', 220, 5000, {}), ('mixed', 80, 1000, {})]
-MONITORS = ['C01']
+MONITORS = ['C01', 'until_dates']
 
 
 def run(ctx):
@@ -32,6 +32,7 @@ def run(ctx):
     oracle_correspondence(ctx, ctx.n(300, 3000))
     after_reuse_correspondence(ctx, ctx.n(200, 2000))
     kernel_correspondence(ctx, ctx.n(200, 2000))
+    exact_clocks(ctx, ctx.n(40, 400))
     reused_conditions(ctx, ctx.n(20, 300))
     # timed waits through the SimPy layer (Timeout, processes registered before the run, initial_time): C18's directed
     # family, its oracle is the clock arithmetic of this property
@@ -123,7 +124,7 @@ def reused_conditions(ctx, n):
         kind = rng.choice(['after', 'moment', 'until-after', 'until-moment'])
         cond = (time >= d) if 'after' in kind else (time == d)
         nested = rng.random() < 0.4
-        runs = rng.choice([2, 3])
+        runs = rng.choice([2, 3, 3, 12])       # (many in a row: each finished loop is garbage when the next one is created)
         case = {'reused_condition': kind, 'date': d, 'runs': runs, 'nested': nested}
         log = []
 
@@ -143,6 +144,9 @@ def reused_conditions(ctx, n):
         try:
             for k in range(runs):
                 usim.run(outer() if nested else user(k))
+                if runs > 3:
+                    import gc
+                    gc.collect()       # the finished loop is really gone (and its address free) before the next one
         except BaseException as e:   # noqa
             ctx.fail(case, 'raised %r' % (e,), family='reused-conditions')
             continue
@@ -152,6 +156,54 @@ def reused_conditions(ctx, n):
         if log != want:
             ctx.fail(case, 'a %s condition for the date %r used by %d simulations in a row%s: resumed at %r, expected %r'
                      % (kind, d, runs, ' (each with a nested one)' if nested else '', log, want), family='reused-conditions')
+
+
+def exact_clocks(ctx, n):
+    """the clock is whatever number type the user started it with - integer ticks beyond 2**53, Fractions, large floats -
+    and every date is computed from it exactly: start, start + d, the date given to `time >= t` / `do(at=t)` / run(till=t)
+    are hit exactly (compared with Python's own exact arithmetic on the same type)"""
+    import usim
+    from fractions import Fraction
+    from usim import time
+    rng = ctx.rng
+    for _ in range(n):
+        start = rng.choice([2 ** 53 + 1, 10 ** 18 + 7, Fraction(1, 3), Fraction(10 ** 20 + 1, 7), 1.7e9, 2.0 ** 40, -(2 ** 60) - 1])
+        d1, d2, d3 = (rng.choice([1, 2, 3, 5]) for _ in range(3))
+        case = {'exact_clock': repr(start), 'delays': [d1, d2, d3]}
+        log = []
+
+        async def child(tag):
+            log.append((tag, time.now))
+
+        async def main():
+            log.append(('start', time.now))
+            await (time + d1)
+            log.append(('delay', time.now))
+            await (time >= start + d1 + d2)
+            log.append(('after', time.now))
+            async with usim.Scope() as scope:
+                scope.do(child('at'), at=start + d1 + d2 + d3)
+                scope.do(child('after='), after=d3)
+                scope.do(child('now'), at=time.now)
+            log.append(('scope', time.now))
+            await (time == start + d1 + d2 + d3 + 1)
+            log.append(('moment', time.now))
+            await (time + 100)
+            log.append(('late', time.now))
+        try:
+            usim.run(main(), start=start, till=start + d1 + d2 + d3 + 50)
+        except BaseException as e:   # noqa
+            ctx.fail(case, 'raised %r' % (e,), family='exact-clocks')
+            continue
+        ctx.count(case, nontrivial=True)
+        ctx.bump('family:exact-clocks')
+        t3 = start + d1 + d2 + d3
+        want = [('start', start), ('delay', start + d1), ('after', start + d1 + d2), ('now', start + d1 + d2), ('at', t3),
+                ('after=', t3), ('scope', t3), ('moment', t3 + 1)]
+        same = len(log) == len(want) and all(a == b and x == y and type(x) is type(y) for (a, x), (b, y) in zip(log, want))
+        if not same:
+            ctx.fail(case, 'clock started at %r (%s): observed %r, exact arithmetic on that type gives %r'
+                     % (start, type(start).__name__, log, want), family='exact-clocks')
 
 
 def time_connectives(rng, n):
@@ -305,6 +357,11 @@ def kernel_correspondence(ctx, n):
                 else:
                     ops.append(['revoke', rng.randrange(nsig)])
             script.append(ops)
+        if rng.random() < 0.3:
+            # many DISTINCT dates pending at once, requested in random order (the wait queue proper)
+            for k in range(min(2, len(script))):
+                script[k] = script[k] + [['after', d, rng.randrange(nact), rng.choice([None] + list(range(nsig)))]
+                                         for d in rng.sample(range(1, 40), rng.choice([6, 8, 12]))]
         cases.append(dict(nroots=nroots, nact=nact, nsig=nsig, start=start, script=script))
     kernel_check(ctx, cases)
 
